@@ -50,7 +50,7 @@ NAMES3 = ('sc', 'fcc', 'bcc', 'diamond', 'hcp', 'omega', 'rumpled', 'b2', 'l12',
 
 def cases(tier, seed):
     global CHUNK
-    n = 40 if tier == 'quick' else 800
+    n = 40 if tier == 'quick' else 1600
     CHUNK = 4 if tier == 'quick' else 8
     # feature slices are fixed by the case index so that every run sees every regime
     return [{'seed': seed, 'idx': i, 'hashseed': i % 4 if tier == 'quick' else i % 7, 'tier': tier, 'mode': 'large' if i % 4 == 3 else 'small',
